@@ -15,7 +15,8 @@ RULE = (
     'unaligned step, starting before or after the rain record, with 0-3 '
     'gaps anywhere (including at the ends and gaps leaving a one-sample '
     'stretch); values on the dyadic lattice or arbitrary floats; rows of each '
-    'file shuffled in 30% of cases; five time zones. Oracle: an independent '
+    'file shuffled in 30% of cases; five time zones; 20% of cases through '
+    'the command line on files (with / without byte-order mark, LF / CRLF). Oracle: an independent '
     'model (Fractions) of the grid, the copied rain / ET rows, linear '
     'interpolation of the bracketing samples (exact where the instant '
     'coincides with a sample, rel 1e-9 otherwise), absence of level and '
@@ -69,6 +70,10 @@ def cases(draw):
     et = [[i, draw(st.integers(0, 64)) / 64.0] for i in range(lo, hi)]
     case = {'dt': dt, 't0': t0, 'tz': tz, 'rain': rain, 'et': et, 'wl': wl,
             'mode': mode}
+    if draw(st.integers(0, 9)) < 2:
+        case['cli'] = True
+        case['bom'] = draw(st.booleans())
+        case['crlf'] = draw(st.booleans())
     if draw(st.integers(0, 9)) < 3:
         case['order'] = {
             'rain': draw(st.permutations(range(len(rain)))),
@@ -83,6 +88,20 @@ def check(case):
         want = model_load.expected(case)
     except model_load.Refused as ref:
         raise Reject('outside-domain: ' + str(ref).split(' for ')[0]) from ref
+    if case.get('cli'):
+        import sqlite3
+        with dataset.scratch_dir() as directory:
+            db = directory + '/data.sqlite3'
+            guarded(dataset.cli_load, case, db, directory)
+            connection = sqlite3.connect(db)
+            try:
+                labels = compare(case, want, connection)
+            finally:
+                connection.close()
+        labels.add('via-cli')
+        if case.get('bom'):
+            labels.add('byte-order-mark')
+        return labels
     connection = guarded(dataset.load_memory, case)
     try:
         return compare(case, want, connection)
